@@ -11,7 +11,9 @@ and feedback of the i-th action, the position of the logged action, the logged r
 layout after every step.  None of these expectations is computed here.
 
 The driver turns each case into real interactions (twice: a plain rendering and a rotating one that varies container
-types, equal-but-not-identical reward arguments, DiscreteReward form, interaction classes, context type), applies the
+types, equal-but-not-identical reward arguments, DiscreteReward form, interaction classes, context type, the level list
+the categoricals of an interaction carry - shared / the interaction's own action set in its own order / with a vocabulary
+of its own per action set, see levels_of), applies the
 real filters one step at a time and compares after EVERY step; when a pipeline has no Finalize the spec also says
 whether Environments' implicit Finalize may follow, and that step is replayed too.  A case that is clean step by step
 is then run again as one lazy pipeline (Pipes.join) and through the Environments shortcuts.
